@@ -5,8 +5,8 @@ expected to catch them (quick tier), revert. Usage:
 Results are appended to /verif/out/mutants.log and printed as a table."""
 import subprocess, sys, os, json, time
 
-REPO = "/repo"
-VERIF = "/verif"
+REPO = os.environ.get("REPO_DIR", "/repo")
+VERIF = os.environ.get("VERIF_RUN_DIR", "/verif")
 
 # (name, file, old, new, occurrence (0-based) or None for unique, expected properties)
 M = []
@@ -324,7 +324,7 @@ def main():
     sel = [mu for mu in M if not args or any(a in mu["name"] for a in args)]
     rows = []
     # evidence written while a mutant is applied must never be committed: keep the real files aside
-    sh("rm -rf /tmp/evidence_backup && cp -r %s/evidence /tmp/evidence_backup" % VERIF)
+    sh("rm -rf /tmp/evidence_backup_m && cp -r %s/evidence /tmp/evidence_backup_m" % VERIF)
     for mu in sel:
         try:
             apply(mu)
@@ -345,7 +345,8 @@ def main():
             print(mu["name"], res, tests, flush=True)
         finally:
             revert()
-    sh("rm -rf %s/evidence && mv /tmp/evidence_backup %s/evidence" % (VERIF, VERIF))
+    sh("rm -rf %s/evidence && mv /tmp/evidence_backup_m %s/evidence" % (VERIF, VERIF))
+    os.makedirs(os.path.join(VERIF, "out"), exist_ok=True)
     with open(os.path.join(VERIF, "out", "mutants.log"), "a") as f:
         for r in rows:
             f.write(json.dumps(r) + "\n")
